@@ -51,11 +51,17 @@ def butter_pass(V, cut, gibbs, cls):
             kw.update(remove_gibbs=gibbs, gibbs_extra=1, gibbs_range=50)
         return ((o,), dict(cut_off=cut_off, **kw))
     for out in V.run(S_ + 'Signal.butter_pass', setup):
+        out.replay_info = dict(module='filter', cls=cls, cut=cut, gibbs=gibbs)
         if not out.no_raise():
             continue
         out.side_conditions(skip=('nonzero-divisor', 'mean-of-nonempty'))
         o, a, n, dt, ftype = st['o'], st['a'], st['n'], st['dt'], st['ftype']
         vals = o.attrs['_values']
+        # frame: the caller's cut-off container still holds the requested cut-offs (it is routinely reused for the next record)
+        co = st['cut_off']
+        want_co = {'band': ('f_lo', 'f_hi'), 'low': (None, 'f_hi'), 'high': ('f_lo', None)}[ftype]
+        ok_co = (is_arr(co) and tuple(co.shape) == (2,)) or (isinstance(co, (list, tuple)) and len(co) == 2)
+        out.prove('cut-off-container-not-modified', ok_co and T.sand(*[(co[i] is None) if w is None else T.seq(co[i], V.real(w)) for i, w in enumerate(want_co)]))
         out.prove('length-preserved', T.sand(T.seq(vals.shape[0], n), T.seq(o.attrs['_npts'], n)))
         out.prove('time-step-preserved', T.seq(o.attrs['_dt'], dt))
         # specification of the SciPy calls: exactly one butter() and one filtfilt() call; filter type from the None pattern,
